@@ -51,6 +51,12 @@ def world(env):
     terms = {1: m.Or(p, m.LE(x, y)), 2: m.And(q, m.Equals(m.BVAdd(b, m.BV(1, 2)), m.BV(3, 2))),
              3: m.Implies(p, m.LT(y, m.Plus(x, m.Int(3)))), 4: m.And(m.Not(q), m.LE(x, m.Int(0))),
              5: m.Or(p, m.Not(p), m.Equals(b, m.BV(0, 2)))}
+    # user-declared sorts: a plain one and two instances of a parametric one (used by the sort-declaration histories)
+    from pysmt.typing import Type
+    S, Pair = Type("S"), Type("Pair", 2)
+    terms[6] = m.Equals(m.Symbol("k1", S), m.Symbol("k2", S))
+    terms[7] = m.And(m.Equals(m.Symbol("pa", Pair(INT, S)), m.Symbol("pc", Pair(INT, S))),
+                     m.Not(m.Equals(m.Symbol("pb", Pair(S, INT)), m.Symbol("pd", Pair(S, INT)))))
     m0 = {p: m.TRUE(), q: m.TRUE(), x: m.Int(1), y: m.Int(2), b: m.BV(2, 2)}
     return terms, m0, [p, q, x, y, b]
 
@@ -67,7 +73,12 @@ def run_history(env, hist, terms, m0, syms, via_factory, scratch):
     model = EagerModel(m0, env)
     # every formula the wrapper may assert (the one-shot queries assert the query formula or its negation)
     cands = list(terms.values()) + [m.Not(terms[5])]
-    table = {"true": [assert_text(f) for f in cands if model.get_value(f).is_true()],
+    def holds(f):
+        try:
+            return model.get_value(f).is_true()
+        except Exception:
+            return False            # symbols of user-declared sorts have no value in the fixed model
+    table = {"true": [assert_text(f) for f in cands if holds(f)],
              "values": {s.symbol_name(): smt_const(v) for s, v in m0.items()}}
     tpath = os.path.join(scratch, "table.json")
     lpath = os.path.join(scratch, "log.ndjson")
@@ -165,7 +176,7 @@ def run_history(env, hist, terms, m0, syms, via_factory, scratch):
         except sexpr.SexprError as ex:
             sxs.append(sexpr.lst(sexpr.sym("!!unreadable")))
     return {"kind": "solver_stream", "sxs": sxs, "prologue": prologue, "calls": calls,
-            "terms": [term_io.export(terms[i]) if i != 5 else term_io.export(terms[5]) for i in range(1, 6)],
+            "terms": [term_io.export(terms[i]) for i in range(1, len(terms) + 1)],
             "m0": [{"n": s.symbol_name(), "v": term_io.export(v)} for s, v in m0.items()], "via_factory": via_factory}
 
 
@@ -189,6 +200,15 @@ def run(ck):
         decl = decl + gen_corpus("SLSDECL5", module="gen/Gen_Hist", deps=DEPS)
     hists = (ck.rng.sample(h3, min(len(h3), 400)) if quick else h3) + ck.rng.sample(h4, min(len(h4), 250 if quick else 8000)) \
         + longs[: (150 if quick else 2000)] + decl
+    # sort declarations: a plain and a parametric user-declared sort (two instances) across levels
+    A = lambda x: {"c": "assert", "x": x, "n": 0, "id": ""}
+    PU = lambda n_: {"c": "push", "x": 0, "n": n_, "id": ""}
+    PO = lambda n_: {"c": "pop", "x": 0, "n": n_, "id": ""}
+    SOLVE = {"c": "solve", "x": 0, "n": 0, "id": ""}
+    sort_hists = [[A(6)], [A(7)], [A(6), A(7), SOLVE], [A(7), A(6), A(7)], [PU(1), A(7), PO(1), A(7), A(6)],
+                  [A(7), PU(2), A(6), PO(1), A(6), SOLVE], [PU(1), A(6), PU(1), A(7), PO(2), A(7), A(6)],
+                  [A(1), PU(1), A(7), SOLVE, PO(1), A(6), {"c": "reset", "x": 0, "n": 0, "id": ""}, A(7), A(6)]]
+    hists = hists + sort_hists
     env = fresh_env()
     terms, m0, syms = world(env)
     scratch = tempfile.mkdtemp(prefix="c17_")
